@@ -8,6 +8,8 @@ python3 tools/gen_src.py || echo "setup: source translator refused the current m
 python3 tools/gen_poisson.py || echo "setup: source translator refused the current poisson.rs (the differential tie remains)"
 python3 tools/gen_conv.py || echo "setup: source translator refused the current convolution.rs (the differential tie remains)"
 python3 tools/gen_peak.py || echo "setup: source translator refused the current peak.rs (the differential tie remains)"
+python3 tools/gen_formula.py || echo "setup: source translator refused the current formula.rs (the differential tie remains)"
+python3 tools/gen_espec.py || echo "setup: source translator refused the current element_specification.rs (the differential tie remains)"
 (cd harness && RUSTFLAGS="--cfg chemical_elements_verif" cargo build --release --offline -q)
 (cd harness_c && RUSTFLAGS="--cfg chemical_elements_verif" cargo build --release --offline -q)
 # -k: a proof that no longer checks must not stop the others from being built; each check
